@@ -137,9 +137,11 @@ func c20(tier string, r *ev.Run, replay string) {
 						}
 						c := c20Case{L: L, P: p, K: k, Tail: tail, Fill: fill, Align: -1}
 						_, xs := c20Build(c)
-						ref := simd.Naive(xs, k)
-						if int(ref) != p {
-							ev.Fatalf("C20 generator bug: Naive=%d p=%d case=%+v", ref, p, c)
+						// the expected answer is known by construction (first-match position p); the
+						// portable reference implementation is code under test as well
+						ref := int16(p)
+						if nv := simd.Naive(xs, k); int(nv) != p {
+							r.Violation("C20/reference-implementation-wrong", fmt.Sprintf("simd.Naive(len=%d,k=%d)=%d but the first key >= k is at %d", L, k, nv, p), c)
 						}
 						got := simd.Search(xs, k)
 						evals++
